@@ -1,7 +1,9 @@
-"""C18 (partial): never-run-twice by type (witness), no stranded queue (R-QUEUE),
+"""C18 (partial): never-run-twice by type (witness), no stranded queue (R-QUEUE), no popped task dropped
+(R-LINEAR.task), no refused task ignored (R-SINK), no completion-ordered sequence (R-SEQ),
 no swallowed stage/item error (R-ERRDEAD)."""
 from vlib import fixtures
-from rules import errdead, queue
+from rules import errdead, queue, linear, order
+from vlib.mir import Fn
 from vlib import witness
 
 EXEMPT = {
@@ -12,7 +14,7 @@ EXEMPT = {
 
 def run(ctx):
     fx = ctx.facts("default")
-    fixtures.run(ctx, ['errdead'])
+    fixtures.run(ctx, ['errdead', 'tasks'])
     witness.run_dir(ctx, "W18", "C18")
     ctx.floor("W18.witnesses", 2)
     queue.run(ctx, fx, "concurrency::work_stealing::WorkStealingQueue", "src/concurrency/work_stealing.rs",
@@ -20,16 +22,43 @@ def run(ctx):
               ["concurrency::work_stealing::WorkStealingExecutor::worker_loop::{closure#0}"])
     ctx.floor("R-QUEUE.queue_fields", 2)
     ctx.floor("R-QUEUE.methods", 5)
+    # a task taken out of a queue is run, returned or put back on every path (a dropped Box<dyn Task> never runs)
+    TASK = "dyn concurrency::work_stealing::Task"
+    nl = 0
+    for fid in fx.fn_ids("src/concurrency/work_stealing.rs"):
+        if "::tests::" in fid:
+            continue
+        for k in range(fx.count(fid)):
+            fn = Fn(fx.raw(fid, k))
+            got = linear.linear(ctx, fn, TASK, rule="R-LINEAR.task", follow=True)
+            if got:
+                ctx.analysed_fns.add(fid)
+            nl += got
+    ctx.instance("R-LINEAR.task.sites", nl)
+    ctx.floor("R-LINEAR.task.sites", 7)
+    linear.refusing_sinks(ctx, fx, "src/concurrency/work_stealing.rs", TASK)
+    ctx.floor("R-SINK.calls", 1)
+    order.sequence_order(ctx, fx, ["src/concurrency/pipeline.rs", "src/concurrency/fiber_pool.rs", "src/concurrency/mod.rs",
+                                   "src/concurrency/fiber_aio.rs", "src/concurrency/fiber_yield.rs",
+                                   "src/concurrency/async_blob_store.rs"])
+    ctx.floor("R-SEQ.sequence_apis", 20)
     errdead.run(ctx, fx, ["src/concurrency/pipeline.rs", "src/concurrency/fiber_pool.rs"], exempt=EXEMPT)
     ctx.floor("R-ERRDEAD.sites", 3)
     return dict(
-        level_note="decides three structural clauses of C18 (type-level consume-on-execute; every queue the owner fills "
-                   "is drained on the owner's path; no stage/item error is swallowed in pipeline.rs/fiber_pool.rs). "
+        level_note="decides six structural clauses of C18 (type-level consume-on-execute; every queue the owner fills "
+                   "is drained on the owner's path; a Box<dyn Task> taken out of a queue is moved on (run/returned/re-queued) on "
+                   "every path; the Result of a refusing task sink is examined; sequence-returning APIs use no "
+                   "completion-ordered combinator; no stage/item error is swallowed in pipeline.rs/fiber_pool.rs). "
                    "Exactly-once under stealing interleavings, idle detection and result order values are NOT decided.",
         explanation="W18: compile-fail witness (E0382) + compiling twin against the freshly built rmeta. R-QUEUE: "
                     "per-method push/pop summaries of WorkStealingQueue fields, owner vs thief receivers in find_task by "
                     "parameter type. R-ERRDEAD: Err arms of matches on Results carrying ZiporaError/JoinError/Elapsed "
-                    "must read the payload or build/propagate an Err; Result locals never read are discards.",
-        trusted_base=["rustc nightly (type checker for witnesses, MIR)", "zfacts", "rules/queue.py", "rules/errdead.py"],
+                    "must read the payload or build/propagate an Err; Result locals never read are discards. R-LINEAR.task: "
+                    "path walk from every call that yields Option<Box<dyn Task>>/Box<dyn Task>, following moves into locals; "
+                    "reaching Drop/StorageDead while still owning is a lost task. R-SINK: crate-local callee taking the "
+                    "task by value and returning Result => result local must be read. R-SEQ: bodies returning "
+                    "[Result<]Vec<_> and their nested closures/coroutines call no buffer_unordered/FuturesUnordered/"
+                    "for_each_concurrent/select_all/join_next.",
+        trusted_base=["rustc nightly (type checker for witnesses, MIR)", "zfacts", "rules/queue.py", "rules/errdead.py", "rules/linear.py", "rules/order.py"],
         rule_text="obligation = (queue field, owner-path drain) | (Err arm or dead Result local) | witness; all are non-trivial",
     )
